@@ -65,7 +65,12 @@ RETRY_AFTER_STATUSES = (413, 429, 503)  # from the property statement
 CLOSED_FIRST = frozenset(["recv-reset", "recv-eof", "recv-body-timeout"])
 
 POOLS = ("direct", "forwarding-proxy", "tunnelling-proxy")
-DEST = {"direct": "http://a.test/x", "forwarding-proxy": "http://a.test/x", "tunnelling-proxy": "https://a.test/x"}
+# a fourth kind, used by block P only: the proxy itself is reached over TLS, so every fresh dial is followed by a
+# handshake WITH THE PROXY; its failure is neither a failed dial (connect) nor a read error: it is charged to "other"
+TLS_PROXY = "tls-forwarding-proxy"
+HANDSHAKING = ("tunnelling-proxy", TLS_PROXY)
+DEST = {"direct": "http://a.test/x", "forwarding-proxy": "http://a.test/x", "tunnelling-proxy": "https://a.test/x",
+        TLS_PROXY: "http://a.test/x"}
 
 ALLOWED = {"default": "default", "all": None, "post": frozenset(["POST"])}
 DEFAULT_ALLOWED = frozenset(["HEAD", "GET", "PUT", "DELETE", "OPTIONS", "TRACE"])  # documented default
@@ -295,6 +300,8 @@ def execute(case):
     with net:
         if pool == "direct":
             pm = urllib3.PoolManager(**mkw)
+        elif pool == TLS_PROXY:
+            pm = urllib3.ProxyManager("https://proxy.test:3128", proxy_ssl_context=_tls_context(), **mkw)
         else:
             pm = urllib3.ProxyManager("http://proxy.test:3128", ssl_context=_tls_context(), **mkw)
         url = DEST[pool]
@@ -695,7 +702,7 @@ def explore_task(task):
     cfg, method, pool, alphabet, L = task["cfg"], task["method"], task["pool"], task["alphabet"], task["L"]
     collapse = task.get("collapse", True)
     need_all, need_any = needs(cfg, method) if collapse else (set(), set())
-    alphabet = [s for s in alphabet if s != "tls" or pool == "tunnelling-proxy"]
+    alphabet = [s for s in alphabet if s != "tls" or pool in HANDSHAKING]
     stopped, nodial = set(), set()
     eff = effective(cfg)
 
@@ -836,6 +843,13 @@ def tasks_for(thorough):
             for kw in (dict(total=2, read=1, forcelist=[500]), dict(total=None, connect=1, other=0),
                        dict(total=1, status=0, forcelist=[500], raise_on_status=False, allowed="all")):
                 add("D", make_cfg(spelling="pool-retry", **kw), m, pool, FULL, LD, collapse=False)
+    # P: a proxy reached over TLS - the handshake with the proxy can fail on every fresh dial; budget product
+    #    against the four categories as they occur on this route
+    for total in TOTALS:
+        for b in budgets:
+            for (m, a) in GATES_DEEP[:2]:
+                add("P", make_cfg(total, *b, allowed=a, forcelist=[500], backoff=(0.5, 1, 0)), m, TLS_PROXY,
+                    ["cref", "tls", "rst", "500"], 3 if not thorough else 4)
     # X: NO collapsing — the full budget product against short scripts over the whole alphabet, so the
     #    independence argument behind the collapse in A and B is itself exercised
     for total in TOTALS:
@@ -866,7 +880,7 @@ def run(ctx):
     ends = {k[4:] for k in c if k.startswith("end:")}
     vac = [
         (all(c["sym:" + s] > 0 for s in FULL), "every outcome symbol was used"),
-        (all(c["pool:" + p] > 0 for p in POOLS), "every pool kind was used"),
+        (all(c["pool:" + p] > 0 for p in POOLS + (TLS_PROXY,)), "every pool kind was used"),
         (all(c["method:" + m] > 0 for m in ("GET", "POST", "PUT", "post")), "every method was used"),
         (all(c["block:" + b] > 0 for b in "ABCDX"), "every block ran"),
         ({"ok", "last-response", "max-retry-status", "max-retry-error", "reraised-false",
